@@ -5,7 +5,7 @@
 Require Extraction.
 Require Import ExtrOcamlBasic.
 From Coq Require Import List NArith ZArith.
-From SDB Require Import Base.Bytes Base.Assoc Params Model.Codec Model.Lock Model.Page Model.Pool Model.SqlRef Model.Catalog Model.Query Model.Wal Model.LogCodec Model.WalTrace Model.Sched Model.ReqMgr Model.Engine Model.IndexWrap Model.Trace Model.Join Model.SkipList Model.Startup Model.HashTable.
+From SDB Require Import Base.Bytes Base.Assoc Params Model.Codec Model.Lock Model.Page Model.Pool Model.SqlRef Model.Catalog Model.Query Model.Wal Model.LogCodec Model.WalTrace Model.Sched Model.ReqMgr Model.Engine Model.IndexWrap Model.Trace Model.Join Model.SkipList Model.Startup Model.HashTable Model.Heap.
 
 Extraction Blacklist List String Int.
 
@@ -51,4 +51,6 @@ Extraction "sdbmodel.ml"
   cfg_now st_mkcfg st_nopage st_init st_step st_run st_next_lsn st_is_normal st_phase_no st_disk_lsn st_log_lsns st_lost_records st_floor_broken st_feed st_feed_all
   (* M17h linear-probe hash table (C17) *)
   ht_empty ht_engine_empty ht_insert ht_ins_err ht_ins_stored ht_remove ht_get ht_live_count ht_occ_count ht_home ht_engine_blocks ht_block_array_size
+  (* M2h table heap chain with pin accounting (C14) *)
+  hp_go mkHpV hp_init hp_exec_l hp_run_l hp_run_ok hp_op_ok hp_pin_vector hp_trace_pins hp_scan_expected hp_flat hp_lookup hp_place hp_accepts hp_pin_safe hp_pin_run
   N.of_nat N.to_nat Z.of_N Z.to_N Z.compare N.compare.
